@@ -1,6 +1,7 @@
 package rules
 
 import (
+	"go/types"
 	"sort"
 	"strings"
 )
@@ -9,6 +10,7 @@ import (
 type FieldGuard struct {
 	Field    string
 	Owner    string
+	OwnerT   *types.Named
 	Accesses []Access // non-init, non-local accesses
 	Writes   int
 	Guard    string // designated lock ("" when no access holds any lock)
@@ -27,7 +29,7 @@ func GuardTable(c *Ctx, accs []Access) []*FieldGuard {
 		}
 		g := by[a.Field]
 		if g == nil {
-			g = &FieldGuard{Field: a.Field, Owner: a.Owner, Cands: map[string]int{}}
+			g = &FieldGuard{Field: a.Field, Owner: a.Owner, OwnerT: a.OwnerT, Cands: map[string]int{}}
 			by[a.Field] = g
 		}
 		g.Accesses = append(g.Accesses, a)
